@@ -39,6 +39,9 @@ type Features struct {
 	AnonMount    bool // mount without "from" succeeds when any repository of the host holds the blob
 	NoHeadDigest bool // omit Docker-Content-Digest on manifest HEAD/GET
 	ChunkMin     int  // OCI-Chunk-Min-Length announced on upload start (0 = none)
+	// EmptyRange: how a session that holds no byte yet states its range: "" = "0-0" (as distribution
+	// does, indistinguishable from one byte), "minus1" = "0--1" (end = size-1, as olareg does)
+	EmptyRange string
 	Location     string // "" relative, "abs" absolute URL, "query" relative with a query string
 	ValidateRefs bool // manifest PUT rejects references to content the repository lacks
 	TagPage      int  // page size of tags/list when the client does not ask for one (0 = all)
@@ -704,6 +707,13 @@ func (h *Host) blob(e *Entry) *Answer {
 	return st(405, "UNSUPPORTED")
 }
 
+func (h *Host) rangeOf(u *Upload) string {
+	if len(u.Data) == 0 && h.Feat.EmptyRange == "minus1" {
+		return "0--1"
+	}
+	return fmt.Sprintf("0-%d", max(len(u.Data)-1, 0))
+}
+
 func (h *Host) location(e *Entry, repo, id string) string {
 	loc := "/v2/" + repo + "/blobs/uploads/" + id
 	switch h.Feat.Location {
@@ -803,7 +813,7 @@ func (h *Host) upload(e *Entry) *Answer {
 			if !ok || start != int64(len(u.Data)) || end-start+1 != int64(len(e.Body)) {
 				a := st(416, "RANGE_INVALID")
 				a.Header.Set("Location", h.location(e, e.Repo, u.ID))
-				a.Header.Set("Range", fmt.Sprintf("0-%d", max(len(u.Data)-1, 0)))
+				a.Header.Set("Range", h.rangeOf(u))
 				return a
 			}
 		}
@@ -813,7 +823,7 @@ func (h *Host) upload(e *Entry) *Answer {
 			if u.Short {
 				a := st(416, "RANGE_INVALID")
 				a.Header.Set("Location", h.location(e, e.Repo, u.ID))
-				a.Header.Set("Range", fmt.Sprintf("0-%d", max(len(u.Data)-1, 0)))
+				a.Header.Set("Range", h.rangeOf(u))
 				return a
 			}
 			if len(e.Body) < h.Feat.ChunkMin {
@@ -823,7 +833,7 @@ func (h *Host) upload(e *Entry) *Answer {
 		u.Data = append(u.Data, e.Body...)
 		a := st(202, "")
 		a.Header.Set("Location", h.location(e, e.Repo, u.ID))
-		a.Header.Set("Range", fmt.Sprintf("0-%d", max(len(u.Data)-1, 0)))
+		a.Header.Set("Range", h.rangeOf(u))
 		a.Header.Set("Docker-Upload-UUID", u.ID)
 		return a
 	case "PUT":
@@ -853,7 +863,7 @@ func (h *Host) upload(e *Entry) *Answer {
 		}
 		a := st(204, "")
 		a.Header.Set("Location", h.location(e, e.Repo, u.ID))
-		a.Header.Set("Range", fmt.Sprintf("0-%d", max(len(u.Data)-1, 0)))
+		a.Header.Set("Range", h.rangeOf(u))
 		a.Header.Set("Docker-Upload-UUID", u.ID)
 		return a
 	case "DELETE":
